@@ -181,7 +181,10 @@ def run(ctx) -> None:
   ctx.rule('R4', 'single-resource RPCs perform at most one datastore mutator call on any path', 9)
   ctx.rule('R6', 'trial ids derive from a max_trial_id table query in the same RPC; '
            'SQL max_trial_id returns a query result', 4)
+  ctx.rule('R7', 'the SQL engine/connection is not put into autocommit: explicit commit() is the only '
+           'durability point (the transaction shape of R1/R2 is meaningless otherwise)', 1)
   ctx.trust('SQLite: commit() makes all pending statements durable atomically; rollback() discards them')
+  r7_engine_config(ctx, svc)
   sql = svc.sql
   # wrapper summary: _write_or_rollback rolls back on every exceptional path
   wrapper = None
@@ -281,6 +284,39 @@ def run(ctx) -> None:
 
   r4_one_mutation(ctx, svc)
   r6_ids(ctx, svc)
+
+
+def r7_engine_config(ctx, svc: Svc) -> None:
+  n_engines = 0
+  files = ['vizier/_src/service/vizier_service.py', 'vizier/_src/service/sql_datastore.py',
+           'vizier/_src/service/vizier_server.py', 'vizier/_src/service/constants.py']
+  for f in files:
+    tree = ctx.src.parse(f)
+    for c in ast.walk(tree):
+      if not isinstance(c, ast.Call):
+        continue
+      d = dotted(c.func) or ''
+      is_engine = d.endswith('create_engine')
+      is_opts = isinstance(c.func, ast.Attribute) and c.func.attr in ('execution_options', 'connect')
+      if not (is_engine or is_opts):
+        continue
+      if is_engine:
+        n_engines += 1
+      bad = None
+      for k in c.keywords:
+        txt = unparse(k.value, limit=0).upper()
+        if k.arg in ('isolation_level', 'autocommit') and ('AUTOCOMMIT' in txt or txt == 'TRUE'):
+          bad = k
+        if k.arg in ('execution_options', 'connect_args') and 'AUTOCOMMIT' in txt:
+          bad = k
+      if is_engine or bad is not None:
+        ctx.check(bad is None, 'R7', f'{f}: {d or c.func.attr}(...)', c,
+                  'transactional (no autocommit)',
+                  f'`{unparse(bad, limit=80) if bad else ""}` makes every statement commit on its own: '
+                  'delete_study / update_metadata stop being atomic (a crash between two statements '
+                  'leaves a torn update)', construct=bad if bad is not None else c, func=f)
+  if n_engines < 1:
+    raise AnalysisError('no sqlalchemy create_engine call found in the service package')
 
 
 def _short(n: cfgmod.Node) -> str:
@@ -392,8 +428,8 @@ _SQL = 'vizier/_src/service/sql_datastore.py'
 _SVC = 'vizier/_src/service/vizier_service.py'
 VARIANTS = [
     Variant('commit-between-deletes', _SQL,
-            '      self._write_or_rollback(dsq)\n      self._write_or_rollback(dtq)\n      self._connection.commit()',
-            '      self._write_or_rollback(dsq)\n      self._connection.commit()\n      self._write_or_rollback(dtq)\n      self._connection.commit()',
+            '      self._write_or_rollback(dsq)\n      self._write_or_rollback(dtq)\n',
+            '      self._write_or_rollback(dsq)\n      self._connection.commit()\n      self._write_or_rollback(dtq)\n',
             rule='R1'),
     Variant('drop-rollback-missing-trial', _SQL,
             "        if not row:\n          self._connection.rollback()\n          raise NotFoundError('No such trial:', trial_name)",
@@ -415,5 +451,8 @@ VARIANTS = [
     Variant('id-from-counter', _SVC,
             '      trial.id = str(self.datastore.max_trial_id(request.parent) + 1)',
             '      self._next_id = getattr(self, "_next_id", 0) + 1\n      trial.id = str(self._next_id)', rule='R6'),
+    Variant('engine-autocommit', _SVC,
+            "          poolclass=sqla.pool.StaticPool,\n",
+            "          poolclass=sqla.pool.StaticPool,\n          isolation_level='AUTOCOMMIT',\n", rule='R7'),
     Variant('benign-rename-query', _SQL, 'dsq', 'delete_study_query', expect='silent', count=4),
 ]
